@@ -9,12 +9,227 @@ namespace Osmium.Pbf
 open Osmium.Wire Osmium.Osm Osmium.PbfMsg
 open Osmium.PbfSpec (Choices)
 
+/-! ### the six Info members, one at a time -/
+
+theorem spec_decodeMsg_nil {σ : Type} (step : σ → Field → Option σ) (s : σ) : decodeMsg step s [] = some s := rfl
+
+theorem spec_decodeMsg_single {σ : Type} (step : σ → Field → Option σ) (s : σ) (f : Field) :
+    decodeMsg step s [f] = step s f := by
+  unfold decodeMsg
+  rw [foldlM_cons']
+  cases step s f <;> rfl
+
+theorem spec_int32_nat (v : Nat) (h : v < 2 ^ 31) : toInt32 (u64 (v : Int)) = (v : Int) := by
+  rw [u64_nat v (by simp only [Nat.reducePow] at *; omega), toInt32_small v h]
+
+theorem spec_info_version (ch : Choices) (m : Meta) (p : Params) (a : InfoAcc) (u : Bytes)
+    (hv : m.version < 2 ^ 31) (ha : a.version = 0) :
+    decodeMsg (infoStep p) (a, u)
+      (if m.version == 0 && ch.omitDefaults then []
+       else [PbfSpec.fInt 1 (if m.version == 0 && ch.versionMinusOne then -1 else m.version)]) =
+      some ({ a with version := m.version }, u) := by
+  by_cases hc : (m.version == 0 && ch.omitDefaults) = true
+  · simp only [hc, ↓reduceIte, spec_decodeMsg_nil]
+    have : m.version = 0 := by simp at hc; exact hc.1
+    rw [this]; cases a; simp_all
+  · simp only [hc, Bool.false_eq_true, ↓reduceIte, spec_decodeMsg_single, spec_fInt]
+    by_cases hm : (m.version == 0 && ch.versionMinusOne) = true
+    · have h0 : m.version = 0 := by simp at hm; exact hm.1
+      have e : versionOf (toInt32 (u64 (-1))) = some 0 := by decide
+      rw [if_pos hm]
+      simp [infoStep, fVarint, e, h0]
+    · have e := spec_int32_nat m.version hv
+      rw [if_neg hm]
+      simp [infoStep, fVarint, e, versionOf_nat]
+
+theorem spec_info_timestamp (ch : Choices) (hch : ChoicesOk ch) (m : Meta) (p : Params) (a : InfoAcc) (u : Bytes)
+    (hpd : p.dateFactor = ch.dateGranularity) (ht : m.timestamp < 2 ^ 32) (hts : StampRep ch m.timestamp)
+    (ha : a.timestamp = 0) :
+    decodeMsg (infoStep p) (a, u)
+      (if m.timestamp == 0 && ch.omitDefaults then []
+       else [PbfSpec.fInt 2 (PbfSpec.stamp ch.dateGranularity m.timestamp)]) =
+      some ({ a with timestamp := m.timestamp }, u) := by
+  by_cases hc : (m.timestamp == 0 && ch.omitDefaults) = true
+  · simp only [hc, ↓reduceIte, spec_decodeMsg_nil]
+    have : m.timestamp = 0 := by simp at hc; exact hc.1
+    rw [this]; cases a; simp_all
+  · simp only [hc, Bool.false_eq_true, ↓reduceIte, spec_decodeMsg_single, spec_fInt]
+    have hb := spec_stamp_bound ch.dateGranularity m.timestamp hch.dgran.1 ht
+    have e1 : toInt64 (u64 (PbfSpec.stamp ch.dateGranularity m.timestamp)) = PbfSpec.stamp ch.dateGranularity m.timestamp := by
+      apply toInt64_u64
+      unfold IdOk
+      simp only [Int.reducePow] at *
+      omega
+    have e2 := spec_convTimestamp_stamp ch.dateGranularity m.timestamp hch.dgran ht hts
+    simp [infoStep, fVarint, e1, e2, hpd]
+
+theorem spec_info_changeset (ch : Choices) (m : Meta) (p : Params) (a : InfoAcc) (u : Bytes)
+    (hv : m.changeset < 2 ^ 32) (ha : a.changeset = 0) :
+    decodeMsg (infoStep p) (a, u)
+      (if m.changeset == 0 && ch.omitDefaults then [] else [PbfSpec.fInt 3 m.changeset]) =
+      some ({ a with changeset := m.changeset }, u) := by
+  by_cases hc : (m.changeset == 0 && ch.omitDefaults) = true
+  · simp only [hc, ↓reduceIte, spec_decodeMsg_nil]
+    have : m.changeset = 0 := by simp at hc; exact hc.1
+    rw [this]; cases a; simp_all
+  · simp only [hc, Bool.false_eq_true, ↓reduceIte, spec_decodeMsg_single, spec_fInt]
+    have e1 := int64_field m.changeset hv
+    have e2 := changesetOf_nat m.changeset hv
+    simp [infoStep, fVarint, e1, e2]
+
+theorem spec_info_uid (ch : Choices) (m : Meta) (p : Params) (a : InfoAcc) (u : Bytes)
+    (hv : m.uid < 2 ^ 31) (ha : a.uid = 0) :
+    decodeMsg (infoStep p) (a, u)
+      (if m.uid == 0 && ch.omitDefaults then [] else [PbfSpec.fInt 4 m.uid]) =
+      some ({ a with uid := m.uid }, u) := by
+  by_cases hc : (m.uid == 0 && ch.omitDefaults) = true
+  · simp only [hc, ↓reduceIte, spec_decodeMsg_nil]
+    have : m.uid = 0 := by simp at hc; exact hc.1
+    rw [this]; cases a; simp_all
+  · simp only [hc, Bool.false_eq_true, ↓reduceIte, spec_decodeMsg_single, spec_fInt]
+    have e1 := spec_int32_nat m.uid hv
+    simp [infoStep, fVarint, e1, uidOf_nat]
+
+theorem spec_lookup_idx (table : List Bytes) (s : Bytes) (p : Params) (hps : p.strings = table) (hu : TableOk table s) :
+    StringTable.lookup p.strings ((PbfSpec.idx table s % 2 ^ 32 : Nat) : Int) = some s := by
+  obtain ⟨_, h2, h3⟩ := hu
+  have hm : PbfSpec.idx table s % 2 ^ 32 = PbfSpec.idx table s :=
+    Nat.mod_eq_of_lt (by simp only [Nat.reducePow] at *; omega)
+  rw [hm, lookup_nat, hps, h3]
+
+theorem spec_info_user (ch : Choices) (table : List Bytes) (m : Meta) (p : Params) (a : InfoAcc) (u : Bytes)
+    (hps : p.strings = table) (hu : TableOk table m.user) (hu0 : u = []) :
+    decodeMsg (infoStep p) (a, u)
+      (if m.user.isEmpty && ch.omitDefaults then [] else [PbfSpec.fVarint 5 (PbfSpec.idx table m.user)]) =
+      some (a, m.user) := by
+  by_cases hc : (m.user.isEmpty && ch.omitDefaults) = true
+  · simp only [hc, ↓reduceIte, spec_decodeMsg_nil]
+    have : m.user = [] := by simp at hc; exact hc.1
+    rw [this, hu0]
+  · simp only [hc, Bool.false_eq_true, ↓reduceIte, spec_decodeMsg_single, spec_fVarint]
+    have e := spec_lookup_idx table m.user p hps hu
+    simp only [infoStep, fVarint]
+    rw [e]; rfl
+
+theorem spec_info_visible (ch : Choices) (hist : Bool) (m : Meta) (p : Params) (a : InfoAcc) (u : Bytes)
+    (ha : a.visible = true) :
+    decodeMsg (infoStep p) (a, u)
+      (if (m.visible && ch.omitDefaults) || (m.visible && !hist) then []
+       else [PbfSpec.fVarint 6 (if m.visible then 1 else 0)]) =
+      some ({ a with visible := m.visible }, u) := by
+  by_cases hc : ((m.visible && ch.omitDefaults) || (m.visible && !hist)) = true
+  · simp only [hc, ↓reduceIte, spec_decodeMsg_nil]
+    have : m.visible = true := by
+      cases hv : m.visible
+      · simp [hv] at hc
+      · rfl
+    rw [this]; cases a; simp_all
+  · simp only [hc, Bool.false_eq_true, ↓reduceIte, spec_decodeMsg_single, spec_fVarint]
+    cases hv : m.visible <;> simp [infoStep, fVarint]
+
+/-- the canonical Info field list through `infoStep` -/
+theorem spec_infoFields (ch : Choices) (hch : ChoicesOk ch) (table : List Bytes) (hist : Bool) (m : Meta) (p : Params)
+    (hps : p.strings = table) (hpd : p.dateFactor = ch.dateGranularity)
+    (hm : MetaInDomain m) (hts : StampRep ch m.timestamp) (hu : TableOk table m.user) :
+    decodeMsg (infoStep p) ({}, []) (PbfSpec.infoFields ch table hist m) = some (infoOf m, m.user) := by
+  obtain ⟨hv, hui, ht, hcs⟩ := hm
+  unfold PbfSpec.infoFields
+  simp only [decodeMsg_append]
+  rw [spec_info_version ch m p _ _ hv rfl, Option.bind_some,
+    spec_info_timestamp ch hch m p _ _ hpd ht hts rfl, Option.bind_some,
+    spec_info_changeset ch m p _ _ hcs rfl, Option.bind_some,
+    spec_info_uid ch m p _ _ hui rfl, Option.bind_some,
+    spec_info_user ch table m p _ _ hps hu rfl, Option.bind_some,
+    spec_info_visible ch hist m p _ _ rfl]
+  rfl
+
+theorem spec_infoFields_wf (ch : Choices) (table : List Bytes) (hist : Bool) (m : Meta) (hu : TableOk table m.user) :
+    ∀ f ∈ PbfSpec.infoFields ch table hist m, f.WF := by
+  intro f hf
+  have h64 := u64_lt
+  have hi : PbfSpec.idx table m.user < 2 ^ 64 := by
+    have := hu.2.1
+    simp only [Nat.reducePow] at *; omega
+  simp only [PbfSpec.infoFields, List.mem_append] at hf
+  rcases hf with ((((hf | hf) | hf) | hf) | hf) | hf <;>
+    (split at hf <;> simp only [List.mem_nil_iff, List.mem_singleton] at hf <;> try subst hf)
+  · exact wf_varint 1 _ (by decide) (by decide) (h64 _)
+  · exact wf_varint 2 _ (by decide) (by decide) (h64 _)
+  · exact wf_varint 3 _ (by decide) (by decide) (h64 _)
+  · exact wf_varint 4 _ (by decide) (by decide) (h64 _)
+  · exact wf_varint 5 _ (by decide) (by decide) hi
+  · exact wf_varint 6 _ (by decide) (by decide) (by split <;> decide)
+
 /-- `decode_info` on the spec encoder's Info message -/
 theorem spec_info (ch : Choices) (hch : ChoicesOk ch) (table : List Bytes) (hist : Bool) (m : Meta) (p : Params)
     (hps : p.strings = table) (hpd : p.dateFactor = ch.dateGranularity)
     (hm : MetaInDomain m) (hts : StampRep ch m.timestamp) (hu : TableOk table m.user) :
     decodeInfo p {} (PbfSpec.msg ch PbfSpec.kInfo (PbfSpec.infoFields ch table hist m)) = some (infoOf m, m.user) := by
-  sorry
+  unfold decodeInfo
+  rw [readFields_msg ch PbfSpec.kInfo _ (spec_infoFields_wf ch table hist m hu) (hch.extrasWF PbfSpec.kInfo)]
+  simp only
+  rw [decodeMsg_arrange' (infoStep p) infoKnown (infoStep_unknown p) (infoStep_commutes p) ch PbfSpec.kInfo _ _
+    (hch.extrasUnknown PbfSpec.kInfo)]
+  exact spec_infoFields ch hch table hist m p hps hpd hm hts hu
+
+theorem spec_pack_nil_of_isEmpty (l : List Nat) (h : l.isEmpty = true) : pack l = [] := by
+  have : l = [] := List.isEmpty_iff.mp h
+  subst this; rfl
+
+theorem spec_meta_keys (p : Params) (r : ROpts) (od : Bool) (ks : List Nat) (s : ObjAcc) (hk : s.keys = []) :
+    decodeMsg (metaStep p r) s (PbfSpec.fPacked od 2 ks) = some { s with keys := pack ks } := by
+  unfold PbfSpec.fPacked
+  by_cases hc : (ks.isEmpty && od) = true
+  · simp only [hc, ↓reduceIte, spec_decodeMsg_nil]
+    have : ks.isEmpty = true := by simp at hc; simp [hc.1]
+    rw [spec_pack_nil_of_isEmpty ks this]
+    cases s; simp_all
+  · simp only [hc, Bool.false_eq_true, ↓reduceIte, spec_decodeMsg_single, spec_fBytes]
+    simp [metaStep, fBytes]
+
+theorem spec_meta_vals (p : Params) (r : ROpts) (od : Bool) (vs : List Nat) (s : ObjAcc) (hv : s.vals = []) :
+    decodeMsg (metaStep p r) s (PbfSpec.fPacked od 3 vs) = some { s with vals := pack vs } := by
+  unfold PbfSpec.fPacked
+  by_cases hc : (vs.isEmpty && od) = true
+  · simp only [hc, ↓reduceIte, spec_decodeMsg_nil]
+    have : vs.isEmpty = true := by simp at hc; simp [hc.1]
+    rw [spec_pack_nil_of_isEmpty vs this]
+    cases s; simp_all
+  · simp only [hc, Bool.false_eq_true, ↓reduceIte, spec_decodeMsg_single, spec_fBytes]
+    simp [metaStep, fBytes]
+
+/-- an omitted Info message: all members have their default value -/
+theorem spec_info_omitted (ch : Choices) (table : List Bytes) (hist : Bool) (m : Meta)
+    (h : ((PbfSpec.infoFields ch table hist m).isEmpty && ch.omitDefaults) = true) : infoOf m = {} ∧ m.user = [] := by
+  simp only [Bool.and_eq_true, List.isEmpty_iff] at h
+  obtain ⟨h, hod⟩ := h
+  simp only [PbfSpec.infoFields, hod, Bool.and_true, List.append_eq_nil_iff] at h
+  obtain ⟨⟨⟨⟨⟨h1, h2⟩, h3⟩, h4⟩, h5⟩, h6⟩ := h
+  have e1 : m.version = 0 := by
+    by_cases c : (m.version == 0) = true
+    · simpa using c
+    · simp [c] at h1
+  have e2 : m.timestamp = 0 := by
+    by_cases c : (m.timestamp == 0) = true
+    · simpa using c
+    · simp [c] at h2
+  have e3 : m.changeset = 0 := by
+    by_cases c : (m.changeset == 0) = true
+    · simpa using c
+    · simp [c] at h3
+  have e4 : m.uid = 0 := by
+    by_cases c : (m.uid == 0) = true
+    · simpa using c
+    · simp [c] at h4
+  have e5 : m.user = [] := by
+    by_cases c : m.user.isEmpty = true
+    · exact List.isEmpty_iff.mp c
+    · simp [c] at h5
+  have e6 : m.visible = true := by
+    cases c : m.visible
+    · simp [c] at h6
+    · rfl
+  exact ⟨by simp [infoOf, e1, e2, e3, e4, e6], e5⟩
 
 /-- the fields 2 (keys), 3 (vals), 4 (info) in canonical order through `metaStep` -/
 theorem spec_meta (ch : Choices) (hch : ChoicesOk ch) (table : List Bytes) (hist : Bool) (m : Meta) (p : Params)
@@ -25,18 +240,57 @@ theorem spec_meta (ch : Choices) (hch : ChoicesOk ch) (table : List Bytes) (hist
       some { s with keys := pack (m.tags.map fun t => PbfSpec.idx table t.key),
                     vals := pack (m.tags.map fun t => PbfSpec.idx table t.value),
                     info := infoOf m, user := m.user } := by
-  sorry
+  obtain ⟨hk, hv, hi, hus⟩ := hs
+  unfold PbfSpec.metaFields
+  simp only [decodeMsg_append]
+  rw [spec_meta_keys p {} ch.omitDefaults _ s hk, Option.bind_some,
+    spec_meta_vals p {} ch.omitDefaults (m.tags.map fun t => PbfSpec.idx table t.value)
+      { s with keys := pack (m.tags.map fun t => PbfSpec.idx table t.key) } hv, Option.bind_some]
+  by_cases hc : ((PbfSpec.infoFields ch table hist m).isEmpty && ch.omitDefaults) = true
+  · obtain ⟨e1, e2⟩ := spec_info_omitted ch table hist m hc
+    simp only [hc, ↓reduceIte, spec_decodeMsg_nil]
+    rw [e1, e2]
+    cases s; simp_all
+  · simp only [hc, Bool.false_eq_true, ↓reduceIte, spec_decodeMsg_single, spec_fBytes]
+    have e := spec_info ch hch table hist m p hps hpd hm hts hu
+    simp [metaStep, fBytes, hi, e]
 
 /-- `build_tag_list` on the packed key / value indices -/
 theorem spec_finishTags (table : List Bytes) (p : Params) (hps : p.strings = table) (m : Meta) (s : ObjAcc)
     (hk : s.keys = pack (m.tags.map fun t => PbfSpec.idx table t.key))
     (hv : s.vals = pack (m.tags.map fun t => PbfSpec.idx table t.value))
     (htab : ∀ t ∈ m.tags, TableOk table t.key ∧ TableOk table t.value) : finishTags p s = some m.tags := by
-  sorry
+  have bk : ∀ k ∈ m.tags.map (fun t => PbfSpec.idx table t.key), k < 2 ^ 31 := by
+    intro k hk'
+    obtain ⟨t, ht, rfl⟩ := List.mem_map.mp hk'
+    exact (htab t ht).1.2.1
+  have bv : ∀ k ∈ m.tags.map (fun t => PbfSpec.idx table t.value), k < 2 ^ 31 := by
+    intro k hk'
+    obtain ⟨t, ht, rfl⟩ := List.mem_map.mp hk'
+    exact (htab t ht).2.2.1
+  unfold finishTags
+  rw [hk, hv, unpack_pack _ (fun v h => by have := bk v h; simp only [Nat.reducePow] at *; omega),
+    unpack_pack _ (fun v h => by have := bv v h; simp only [Nat.reducePow] at *; omega)]
+  simp only [bind, Option.bind]
+  apply buildTags_ok p m.tags
+  · rw [hps, List.map_map, List.map_map]
+    apply List.map_congr_left
+    intro t ht
+    exact (htab t ht).1.2.2
+  · rw [hps, List.map_map, List.map_map]
+    apply List.map_congr_left
+    intro t ht
+    exact (htab t ht).2.2.2
+  · exact fun v h => by have := bk v h; simp only [Nat.reducePow] at *; omega
+  · exact fun v h => by have := bv v h; simp only [Nat.reducePow] at *; omega
 
 /-- shape of the meta fields: length-delimited, tags 2 / 3 / 4 -/
 theorem spec_metaFields_shape (ch : Choices) (table : List Bytes) (hist : Bool) (m : Meta) :
     ∀ f ∈ PbfSpec.metaFields ch table hist m, f.wt = .lengthDelimited ∧ (f.tag = 2 ∨ f.tag = 3 ∨ f.tag = 4) ∧ f.val = 0 := by
-  sorry
+  intro f hf
+  simp only [PbfSpec.metaFields, PbfSpec.fPacked, List.mem_append] at hf
+  rcases hf with (hf | hf) | hf <;>
+    (split at hf <;> simp only [List.mem_nil_iff, List.mem_singleton] at hf <;> try subst hf) <;>
+    simp [PbfSpec.fBytes]
 
 end Osmium.Pbf
